@@ -42,6 +42,37 @@ Theorem C13_shift_keeps_features : forall (X : Type) d (r : @prow X),
 Proof. exact @shift_row_feats. Qed.
 Print Assumptions C13_shift_keeps_features.
 
+(* "sample indices shifted to be relative to the epoch start": the sample part of a shifted row is
+   the shifted sample part, and shifting moves ALL SIX sample indices by the same amount d
+   (d = k * L for epoch k, by C13_epoch_contents) *)
+Theorem C13_shifted_row_indices : forall (X : Type) d (r : @prow X),
+  p_s (shift_row d r) = shift_srow d (p_s r).
+Proof. exact @shift_row_s. Qed.
+Print Assumptions C13_shifted_row_indices.
+
+Theorem C13_shift_moves_all_six_indices : forall d (s : srow),
+  s_center (shift_srow d s) = (s_center s - d)%Z /\ s_last (shift_srow d s) = (s_last s - d)%Z /\
+  s_next (shift_srow d s) = (s_next s - d)%Z /\ s_zx_rise (shift_srow d s) = (s_zx_rise s - d)%Z /\
+  s_zx_decay (shift_srow d s) = (s_zx_decay s - d)%Z /\ s_last_zx (shift_srow d s) = (s_last_zx s - d)%Z.
+Proof. exact shift_srow_fields. Qed.
+Print Assumptions C13_shift_moves_all_six_indices.
+
+(* hence every difference of sample indices (period, rise and decay times, ...) is unchanged *)
+Theorem C13_shift_keeps_index_differences : forall d (s : srow),
+  (s_next (shift_srow d s) - s_last (shift_srow d s) = s_next s - s_last s)%Z /\
+  (s_next (shift_srow d s) - s_center (shift_srow d s) = s_next s - s_center s)%Z /\
+  (s_center (shift_srow d s) - s_last (shift_srow d s) = s_center s - s_last s)%Z /\
+  (s_zx_decay (shift_srow d s) - s_zx_rise (shift_srow d s) = s_zx_decay s - s_zx_rise s)%Z /\
+  (s_zx_rise (shift_srow d s) - s_last_zx (shift_srow d s) = s_zx_rise s - s_last_zx s)%Z.
+Proof. exact shift_srow_diffs. Qed.
+Print Assumptions C13_shift_keeps_index_differences.
+
+(* relative to the epoch start the closing index of every row of an epoch lies in (0, L] *)
+Theorem C13_closing_index_relative_to_epoch_start : forall (X : Type) (rows : list (@prow X)) sig_len L k r',
+  k < n_epochs sig_len L -> In r' (nth k (epoch_df rows sig_len L) []) -> (0 < s_next (p_s r') <= L)%Z.
+Proof. exact @epoch_df_local_range. Qed.
+Print Assumptions C13_closing_index_relative_to_epoch_start.
+
 (* no loss, no duplication, order preserved: un-shifting and concatenating the epochs gives back
    the flattened table (closing indices increasing, as C01 establishes) *)
 Theorem C13_partition : forall (X : Type) (rows : list (@prow X)) sig_len L, (0 < L)%Z ->
@@ -66,6 +97,51 @@ Theorem C13_per_epoch_options : forall (X : Type) (flat : list (@prow X)) n_rows
     relabel (nth k opts dflt_opt) (nth k (epoch_df flat (Z.of_nat n_rows * row_len) row_len) []) = Ok (nth k out []).
 Proof. exact @axis_none_list. Qed.
 Print Assumptions C13_per_epoch_options.
+
+(* what "re-labelled with its own thresholds" means: the epoch's rows keep indices, features and
+   payload; the new label column is the consistency rule (C06: labels_cycles) resp. the amplitude
+   rule (C07: labels_amp) applied to the rows OF THAT EPOCH ALONE with the epoch's thresholds *)
+Theorem C13_relabel_cycles_meaning : forall (X : Type) t n (rows out : list (@prow X)) d,
+  relabel (RCycles t n) rows = Ok out ->
+  exists lab, labels_cycles t n (map p_feat rows) = Ok lab /\ length out = length rows /\
+  forall i, i < length rows ->
+    p_s (nth i out d) = p_s (nth i rows d) /\ p_feat (nth i out d) = p_feat (nth i rows d) /\
+    p_bf (nth i out d) = p_bf (nth i rows d) /\ p_x (nth i out d) = p_x (nth i rows d) /\
+    p_lab (nth i out d) = nth i lab false.
+Proof. exact @relabel_spec_cycles. Qed.
+Print Assumptions C13_relabel_cycles_meaning.
+
+Theorem C13_relabel_amp_meaning : forall (X : Type) t n (rows out : list (@prow X)) d,
+  relabel (RAmp t n) rows = Ok out ->
+  exists lab, labels_amp t n (map p_bf rows) = Ok lab /\ length out = length rows /\
+  forall i, i < length rows ->
+    p_s (nth i out d) = p_s (nth i rows d) /\ p_feat (nth i out d) = p_feat (nth i rows d) /\
+    p_bf (nth i out d) = p_bf (nth i rows d) /\ p_x (nth i out d) = p_x (nth i rows d) /\
+    p_lab (nth i out d) = nth i lab false.
+Proof. exact @relabel_spec_amp. Qed.
+Print Assumptions C13_relabel_amp_meaning.
+
+(* consequence of the consistency rule: the first and the last cycle of every re-labelled epoch
+   are never part of a burst (this is how per-epoch labels differ from the flattened ones) *)
+Theorem C13_relabel_cycles_clears_epoch_ends : forall (X : Type) t n (rows out : list (@prow X)) d,
+  relabel (RCycles t n) rows = Ok out -> rows <> [] ->
+  p_lab (nth 0 out d) = false /\ p_lab (nth (length rows - 1) out d) = false.
+Proof. exact @relabel_cycles_ends. Qed.
+Print Assumptions C13_relabel_cycles_clears_epoch_ends.
+
+(* per-epoch list: every epoch keeps its rows (indices, features, payload); only labels change *)
+Theorem C13_per_epoch_options_keep_rows : forall (X : Type) (flat : list (@prow X)) n_rows row_len opts out k d,
+  group2d_axis_none flat n_rows row_len (Some opts) = Ok out ->
+  length opts = n_epochs (Z.of_nat n_rows * row_len) row_len -> k < length out ->
+  let ep := nth k (epoch_df flat (Z.of_nat n_rows * row_len) row_len) [] in
+  length (nth k out []) = length ep /\
+  forall i, i < length ep ->
+    p_s (nth i (nth k out []) d) = p_s (nth i ep d) /\
+    p_feat (nth i (nth k out []) d) = p_feat (nth i ep d) /\
+    p_bf (nth i (nth k out []) d) = p_bf (nth i ep d) /\
+    p_x (nth i (nth k out []) d) = p_x (nth i ep d).
+Proof. exact @axis_none_list_rows. Qed.
+Print Assumptions C13_per_epoch_options_keep_rows.
 
 (* Legacy: re-labelling epoch 0 on its own with a single option set (pre-repair) changes labels *)
 Theorem C13_legacy_relabel_refuted :
